@@ -11,5 +11,5 @@ INDEX = {
     "c16cat": [f"{k}@{pl}" for k in ("unreg", "switch3", "scan_reverse", "fori_dynamic", "dim_arith") for pl in ("top", "loop", "fn")] + ["dim_no_origin@fn", "dim_no_origin@nested_fn", "dim_no_origin_scatter@loop"] + [f"scan_fwd_rev@{pl}" for pl in ("top", "loop", "fn")] + ["fn_in_fori@top", "fn_in_scan@top", "fn_in_cond@top", "fn_in_while@top", "inst_top_then_body@top"],
     # history entries: [programs converted first ...] then the judged construct, in one interpreter
     "c16cat_seq": [["scan_fwd_shared@top", "scan_rev_shared@top"], ["scan_fwd_rev@top", "scan_reverse@top"], ["scan_fwd_shared@top", "scan_fwd_rev@fn"], ["switch2_shared@top", "switch3_shared@top"], ["fori_static_shared@top", "fori_dynamic_shared@top"]],
-    "c13": ["flat", "net", "outer", "fn_boundary", "eqx_block", "plain", "jit_cold", "jit_cold2", "flat_f64", "fn_boundary_f64", "cf_nested", "kwblock", "cf_fn_in_scan", "eqx_rope", "eqx_rope_long"],
+    "c13": ["flat", "net", "outer", "fn_boundary", "eqx_block", "plain", "jit_cold", "jit_cold2", "flat_f64", "fn_boundary_f64", "cf_nested", "kwblock", "cf_fn_in_scan", "eqx_rope", "eqx_rope_long", "ckpt_fn"],
 }
